@@ -226,7 +226,8 @@ type bigHash struct {
 // drawBigHashFile builds a file: [some keys] bigkey [some keys], where the big hash crosses the chunk limit.
 func drawBigHashFile(t *rapid.T) *bigHash {
 	bh := &bigHash{}
-	mode := rapid.SampledFrom([]string{"exact", "exact+1", "exact-1", "last-pair", "two", "three", "random"}).Draw(t, "mode")
+	// "three" files exceed 32 MiB, the size of the read buffer the tool puts in front of a file or socket
+	mode := rapid.SampledFrom([]string{"exact", "exact+1", "exact-1", "last-pair", "two", "three", "three", "random"}).Draw(t, "mode")
 	// sizes of pair payloads (field+value incl. their length headers)
 	var sizes []int
 	unit := rapid.SampledFrom([]int{1 << 20, 1 << 19, 3 << 18, 1 << 21}).Draw(t, "unit")
